@@ -133,6 +133,19 @@ Proof.
     + apply EvInv_evict_one; assumption.
 Qed.
 
+Lemma EvInv_flush_oracle c vs : forall s s',
+  IdxInv s -> EvInv c s -> flush_oracle c vs s = Some s' -> EvInv c s'.
+Proof.
+  induction vs as [|k vs IH]; intros s s' HI HE; simpl.
+  - destruct (idx s); intros H; inversion H; subst; assumption.
+  - destruct (lookup k (idx s)) as [i|] eqn:Hl; [|discriminate].
+    assert (Hstep : flush_oracle c vs (evict_one c s k i) = Some s' -> EvInv c s').
+    { intros H. eapply IH; [| |exact H].
+      + apply IdxInv_evict_one; assumption.
+      + apply EvInv_evict_one; assumption. }
+    destruct (_ || _); [exact Hstep|]. destruct (memb i (pinned s)); [discriminate|exact Hstep].
+Qed.
+
 (* ---------------------------------------------------------------- allocation *)
 
 (* after [alloc] the new id is not yet covered by the invariant; everything else is *)
@@ -466,6 +479,7 @@ Proof.
     + eapply IdxInv_frame; [| | | |exact HI]; reflexivity.
     + eapply EvInv_frame; [| | | | |exact HE]; reflexivity.
   - unfold evict_all in H. eapply EvInv_evict_oracle; eauto.
+  - unfold flush in H. eapply EvInv_flush_oracle; eauto.
   - inversion H; subst. apply EvInv_clone; assumption.
   - inversion H; subst. apply EvInv_drop; assumption.
 Qed.
